@@ -193,7 +193,7 @@ func (c *conn) OnClosed(fn func()) (unsub func(), _ bool) {
 	}
 
 	// Add listener
-	id := c.addClosed(fn1)
+	id := c.addClosed(fn1, called)
 	if id == 0 {
 		return nil, false
 	}
@@ -420,7 +420,7 @@ func (c *conn) maybeChannelsReached() {
 
 // close listeners
 
-func (c *conn) addClosed(fn func()) int64 {
+func (c *conn) addClosed(fn func(), called *atomic.Bool) int64 {
 	// Check if closed
 	if c.closed.IsSet() {
 		return 0
@@ -430,10 +430,13 @@ func (c *conn) addClosed(fn func()) int64 {
 	id := c.closedListenerSeq.Add(1)
 	c.closedListeners.Set(id, fn)
 
-	// Check again if closed
+	// Check again if closed, the listener can be already notified by the close,
+	// report it as not added only when it is disabled before it is called.
 	if c.closed.IsSet() {
 		c.closedListeners.Delete(id)
-		return 0
+		if called.CompareAndSwap(false, true) {
+			return 0
+		}
 	}
 	return id
 }
